@@ -116,6 +116,8 @@ def exhaustive_perm_cases():
             out.append("apply 2 %s %s" % (fmt_list(a), fmt_list(x)))
             out.append("apply 4 %s %s" % (fmt_list(a), fmt_list(x)))
             out.append("inverse %s" % fmt_list(a))
+            out.append("permself %s" % fmt_list(a))
+            out.append("permx %s" % fmt_list(a))
             for b in perms:
                 out.append("concat %s %s" % (fmt_list(a), fmt_list(b)))
         # all swap arrays
@@ -234,11 +236,9 @@ def exhaustive_render_cases(quick):
                 continue
             for rt in range(8):
                 out.append("render2 %d %s %s" % (rt, fmt_graph(am, a), fmt_graph(bm, b)))
-            # the lazy CompositeAdjactor iterator (while F-C19-5 is open only where image_begin lands on a non-empty
-            # list, see C19.compositeIterator_empty_head for the excluded shape)
-            if compit_defined(a, b):
-                out.append("adjcomp %s %s" % (fmt_graph(am, a), fmt_graph(bm, b)))
-                out.append("adjrender %d %s %s" % ((len(out) // 3) % 8, fmt_graph(am, a), fmt_graph(bm, b)))
+            # the lazy CompositeAdjactor iterator (every shape, incl. image_begin on an empty adjactor-2 list)
+            out.append("adjcomp %s %s" % (fmt_graph(am, a), fmt_graph(bm, b)))
+            out.append("adjrender %d %s %s" % ((len(out) // 3) % 8, fmt_graph(am, a), fmt_graph(bm, b)))
     return out
 
 
@@ -304,20 +304,16 @@ def gen_api_cases(rng, count):
             kind = rng.randrange(5)
             cases.append("ctor %d %s" % (kind, fmt_graph(n_img, adj)))
         elif k < 0.28:
-            # permute_indices: the code requires #indices == size of the permutation; a graph whose rows partition
-            # the image set (like the patches-at-rank graph that uses it) meets that
-            n_img = rng.choice([1, 2, 3, 5, 8])
-            n_dom = rng.choice([1, 2, 3, 4])
-            idx = list(range(n_img))
-            rng.shuffle(idx)
-            if rng.random() < 0.4:
-                idx = [rng.randrange(n_img) for _ in range(n_img)]
-            cuts = sorted(rng.randrange(n_img + 1) for _ in range(n_dom - 1))
-            adj = [idx[a:b] for a, b in zip([0] + cuts, cuts + [n_img])]
-            cases.append("gpermidx %s %s" % (fmt_graph(n_img, adj), fmt_list(rand_perm(rng, n_img))))
+            # permute_indices: any graph, a permutation of its image nodes (sometimes of the wrong size: must assert)
+            n_img, adj = gen_graph(rng)
+            n_perm = n_img if rng.random() < 0.85 else n_img + rng.choice([1, 2])
+            if n_perm == 0:
+                n_img, adj, n_perm = 2, [[1, 1, 0], []], 2
+            cases.append("gpermidx %s %s" % (fmt_graph(n_img, adj), fmt_list(rand_perm(rng, n_perm))))
         elif k < 0.36:
             n = rng.choice([1, 2, 3, 4, 5, 8, 13])
-            cases.append("permx %s" % fmt_list(structured_perm(rng, n) if rng.random() < 0.5 else rand_perm(rng, n)))
+            cases.append("%s %s" % (rng.choice(["permx", "permself"]),
+                                    fmt_list(structured_perm(rng, n) if rng.random() < 0.5 else rand_perm(rng, n))))
         elif k < 0.46:
             n = rng.choice([0, 1, 2, 3, 5, 9])
             style = rng.random()
@@ -345,9 +341,6 @@ def gen_api_cases(rng, count):
         else:
             a_img, a = gen_graph(rng, max_n=8)
             b_img, b = gen_graph(rng, n_dom=a_img + rng.choice([0, 0, 0, 1, 2]), max_n=8)
-            # image_begin must not land on an empty adjactor-2 list (C19.compositeIterator_empty_head)
-            if not COMPIT_FIXED:
-                a = [l if (not l or b[l[0]]) else [] for l in a]
             if rng.random() < 0.5:
                 cases.append("adjcomp %s %s" % (fmt_graph(a_img, a), fmt_graph(b_img, b)))
             else:
@@ -370,37 +363,6 @@ def randperm_cases(binary, rng, count):
         else:
             cases.append("randperm %s %s" % (line.split(None, 1)[1], o))
     return cases
-
-
-# open findings of this property (FINDINGS_C19.md); the exact reproducers are replayed while the finding is open
-# (-> KNOWN-FINDING line) and become ordinary corpus cases once it is marked fixed in KNOWN_FINDINGS.json
-FINDING_CASES = {
-    "c19-compit-empty-head": ["adjcomp 1 1 1 0 0 1 0", "adjcomp 2 1 2 1 0 1 2 1 0 0", "adjrender 0 2 1 1 0 1 2 0 0",
-                              "adjcomp 2 3 4 1 1 0 1 0 2 1 0 2 2 0 2 1 0"],
-    "c19-permute-indices-size": ["gpermidx 3 1 2 0 2 3 1 2 0", "gpermidx 2 1 3 0 1 1 2 1 0"],
-    "c19-concat-aliased": ["permself 3 1 2 0", "permself 4 1 0 3 2"],
-}
-
-
-def finding_status(sig):
-    """'open' | 'fixed' | None (not recorded) from KNOWN_FINDINGS.json"""
-    p = os.path.join(vlib.VERIF, "KNOWN_FINDINGS.json")
-    try:
-        data = json.load(open(p))
-    except Exception:
-        return None
-    for e in data.get("findings", []):
-        if e.get("property") == PROP and e.get("signature") == sig:
-            return e.get("status")
-    return None
-
-
-COMPIT_FIXED = finding_status("c19-compit-empty-head") == "fixed"
-
-
-def compit_defined(a, b):
-    """image_begin of every domain node lands on a non-empty adjactor-2 list (or adjactor 1 has no image)"""
-    return COMPIT_FIXED or all((not l) or b[l[0]] for l in a)
 
 
 CORPUS = [
@@ -427,6 +389,13 @@ CORPUS = [
     "dyn 3 2 i 0 2 i 0 1 i 0 2 x 0 1 e 0 1 e 0 1 g r 0 l r 4 c g",
     "colorctor 0 0 4 0 5 5 2",
     "permx 3 1 2 0",
+    # F-C19-5 (fixed 1c006df21): CompositeAdjactor::image_begin on an empty adjactor-2 list
+    "adjcomp 1 1 1 0 0 1 0", "adjcomp 2 1 2 1 0 1 2 1 0 0", "adjrender 0 2 1 1 0 1 2 0 0",
+    "adjcomp 2 3 4 1 1 0 1 0 2 1 0 2 2 0 2 1 0",
+    # F-C19-6 (fixed ffa23477d): permute_indices with #indices != #image nodes
+    "gpermidx 3 1 2 0 2 3 1 2 0", "gpermidx 2 1 3 0 1 1 2 1 0",
+    # F-C19-7 (fixed 3fe35ab5b): p.concat(p)
+    "permself 3 1 2 0", "permself 4 1 0 3 2",
 ]
 
 
@@ -732,8 +701,9 @@ def oracle(case, out):
         if op == "gpermidx":
             n_img, adj = c.graph_in()
             ip = c.lst()
-            if sum(map(len, adj)) == 0:
-                return None if out.startswith("ABORT") else "permute_indices on a graph without indices did not assert"
+            if sum(map(len, adj)) == 0 or len(ip) != n_img:
+                return None if out.startswith("ABORT") else \
+                    "permute_indices without indices / with a permutation of the wrong size did not assert"
             if is_abnormal(out):
                 return "permute_indices (permutation of the %d image nodes, %d indices) ended with %s" % (
                     n_img, sum(map(len, adj)), out)
@@ -966,28 +936,6 @@ def describe(case):
 
 def signature(case, out, why):
     t = case.split()
-    if why is not None:
-        if t[0] in ("adjcomp", "adjrender"):
-            c = Tk(case)
-            c.tok()
-            if t[0] == "adjrender":
-                c.nat()
-            try:
-                a_img, a = c.graph_in()
-                b_img, b = c.graph_in()
-                if a_img <= len(b) and any(l and not b[l[0]] for l in a):
-                    return "c19-compit-empty-head"
-            except Exception:
-                pass
-        if t[0] == "gpermidx" and out.startswith("ABORT"):
-            c = Tk(case)
-            c.tok()
-            n_img, adj = c.graph_in()
-            ip = c.lst()
-            if len(ip) == n_img and 0 < sum(map(len, adj)) != n_img:
-                return "c19-permute-indices-size"
-        if t[0] == "permself":
-            return "c19-concat-aliased"
     return "%s:%s" % (t[0], (why or "")[:40])
 
 
@@ -1005,18 +953,13 @@ def main(argv):
         cases = [json.load(open(args.replay))["input"]]
     else:
         quick = args.tier == "quick"
-        fixed = [cs for sig, css in FINDING_CASES.items() if finding_status(sig) == "fixed" for cs in css]
-        cases = CORPUS + fixed + exhaustive_perm_cases() + (gen_cases(rng, 3000) if quick else gen_cases(rng, 150000, big=True))
+        cases = CORPUS + exhaustive_perm_cases() + (gen_cases(rng, 3000) if quick else gen_cases(rng, 150000, big=True))
         cases += gen_api_cases(rng, 2500 if quick else 60000)
         cases += randperm_cases(binary, rng, 200 if quick else 5000)
     st = vlib.Stream("adjacency", cases, [binary], vlib.driver_cmd(PROP), oracle=oracle, nontrivial=nontrivial,
                      describe=describe, signature=signature, canon=canon)
     streams = [st]
     if not args.replay:
-        kf = [cs for sig, css in FINDING_CASES.items() if finding_status(sig) == "open" for cs in css]
-        if kf:
-            streams.append(vlib.Stream("open-findings", kf, [binary], vlib.driver_cmd(PROP), oracle=oracle,
-                                       signature=signature, canon=canon, env={"VERIF_CASE_TIMEOUT": "3"}))
         ex = exhaustive_render_cases(quick) + exhaustive_symmetric_cases(quick)
         streams.append(vlib.Stream("small-scope", ex, [binary], vlib.driver_cmd(PROP), oracle=oracle,
                                    nontrivial=nontrivial, describe=describe, signature=signature, canon=canon))
@@ -1031,10 +974,6 @@ def main(argv):
                   "adjacency list or >= 2 adjacencies (graphs) / length >= 2 (permutations)")
     rc = vlib.run_pipeline(PROP, args.tier, args.seed, lean, streams, t0, assumptions=[
         "Index modelled as unbounded Nat (no 64-bit overflow at the sizes FEAT can allocate)",
-        "std::sort modelled as any sorting function",
-        "CompositeAdjactor::image_begin is only exercised where the first adjactor-1 image has a non-empty adjactor-2 "
-        "list (otherwise the iterator dereferences an end iterator: theorem C19.compositeIterator_empty_head)",
-        "Permutation::concat is only exercised with distinct objects (p.concat(p) reads overwritten entries)",
-        "Graph::permute_indices is only exercised where #indices == size of the permutation (XASSERT in the source)"],
+        "std::sort modelled as any sorting function"],
         extra_cov={"rule": stats_rule})
     return rc
